@@ -167,7 +167,7 @@ func c06knownBC() *ugo.Bytecode {
 		// handlers or flags left in those frames by the previous run must not interfere
 		bc, err := ugo.Compile([]byte("param x\nf := func(a) {\n  return a * a\n}\nr := 0\ntry {\n  r = f(x)\n} finally {\n  r += 1\n}\nout := []\nfor i := 0; i < 3; i++ {\n  out = append(out, i)\n}\n"+
 			"t1 := func() {\n  throw error(\"d1\")\n}\nt2 := func() {\n  v := t1()\n  return v\n}\nt3 := func() {\n  v := t2()\n  return v\n}\nmsgs := []\nfor g in [t1, t2, t3] {\n  try {\n    g()\n  } catch e {\n    msgs = append(msgs, e.Message)\n  }\n}\nplain := func(n) {\n  return n + 1\n}\n"+
-			"return [r, out, msgs, plain(1), plain(plain(1))]\n"), ugo.CompilerOptions{})
+			"if x < 0 {\n  throw error(\"uncaught-main\")\n}\nfor j := 0; j < 2; j++ {\n  try {\n    if j == 1 {\n      break\n    }\n  } finally {\n    r += 0\n  }\n}\ntry {\n  return [r, out, msgs, plain(1), plain(plain(1))]\n} finally {\n  r = 0\n}\n"), ugo.CompilerOptions{})
 		if err != nil {
 			panic(err)
 		}
@@ -246,9 +246,15 @@ func (m c06) run(c *core.Ctx, src, fault, context string, mm *ugo.ModuleMap, arg
 		}
 	}
 	// follow-up on the same VM
-	for stage := 0; stage < 2; stage++ {
-		if stage == 1 {
+	// stages 0/1: the known script with x = 5 (after SetBytecode, after Clear); stages 2/3: the same with x = -1, where the
+	// script ends with an error raised at main level outside every try statement, which Run must return
+	for stage := 0; stage < 4; stage++ {
+		if stage%2 == 1 {
 			vm.Clear()
+		}
+		arg, want := ugo.Int(5), c06knownWant
+		if stage >= 2 {
+			arg, want = ugo.Int(-1), "error: error: uncaught-main"
 		}
 		var v2 ugo.Object
 		var e2 error
@@ -262,7 +268,7 @@ func (m c06) run(c *core.Ctx, src, fault, context string, mm *ugo.ModuleMap, arg
 					p2 = r
 				}
 			}()
-			v2, e2 = vm.SetBytecode(c06knownBC()).Run(nil, ugo.Int(5))
+			v2, e2 = vm.SetBytecode(c06knownBC()).Run(nil, arg)
 		}()
 		// the known script finishes in microseconds on a healthy VM; 20 s is six orders of magnitude of slack.
 		// The verdict "hung" is only given when the VM then answers Abort with ErrVMAborted, i.e. its loop was
@@ -289,12 +295,12 @@ func (m c06) run(c *core.Ctx, src, fault, context string, mm *ugo.ModuleMap, arg
 		case p2 != nil:
 			got = "panic: " + fmt.Sprint(p2)
 		case e2 != nil:
-			got = "error: " + e2.Error()
+			got = "error: " + strings.SplitN(e2.Error(), "\n", 2)[0]
 		default:
 			got = canon.Value(v2)
 		}
-		if got != c06knownWant {
-			stg := []string{"after-SetBytecode", "after-Clear"}[stage]
+		if got != want {
+			stg := []string{"after-SetBytecode", "after-Clear", "uncaught-after-SetBytecode", "uncaught-after-Clear"}[stage]
 			c.Violation("C06|followup|"+stg+"|"+core.NormMsg(got), "the VM does not run a known script correctly afterwards ("+stg+"): got "+trunc(got, 200), wit("follow-up run wrong "+stg, got))
 			return true
 		}
